@@ -112,7 +112,9 @@ class AstNode(object):
         * namespace member
         * enumerator
         """
-        raise NotImplemented  # virtual function
+        # Nodes which do not define a scope (enum, typedef, function)
+        # have no members.
+        return None
 
     def unqualified_lookup(self, name):
         """Look for symbols within a scope.
